@@ -2,6 +2,8 @@
 # Re-run every confirmed seeded change under /verif/seeded against the quick check of its property.
 # Each one is applied to a scratch worktree of /repo (never to /repo itself) and the worktree is removed afterwards.
 # Usage: selftest/run_all_seeds.sh [seed-id ...]      output: one line per seed, "DETECTED" or "MISSED"
+# The saved shrunk cases (regress/) are switched off, so that detection is by generation, not by memory.
+export VERIF_NO_REGRESS=1
 cd "$(dirname "$0")/.."
 IDS=${@:-$(ls seeded | grep -E '^C[0-9]+-[0-9]+$')}
 exec 9>/tmp/seed-confirm.lock; flock 9
